@@ -521,13 +521,19 @@ func (x *Exec) evalSelector(s *State, n *ast.SelectorExpr) *Term {
 		return IntLit(0)
 	}
 	base := x.eval(s, n.X)
+	x.derefText = exprString(n)
+	defer func() { x.derefText = "" }()
 	return x.selectPath(s, base, x.typeOf(n.X), sel.Index(), n.Pos())
 }
 
 func (x *Exec) selectPath(s *State, v *Term, t types.Type, path []int, p token.Pos) *Term {
 	for _, i := range path {
 		if isPointer(t) {
-			x.oblige(s, "nil", Not(Eq(v, IntLit(0))), p, "nil dereference")
+			txt := "nil dereference"
+			if x.derefText != "" {
+				txt += ": " + x.derefText
+			}
+			x.oblige(s, "nil", Not(Eq(v, IntLit(0))), p, txt)
 			et := elemOfPointer(t)
 			si := x.eng.tm.structOf(et)
 			v = x.loadField(s, v, si, i)
